@@ -255,7 +255,66 @@ def same_named_classes_case(_=None):
   return n, n, viols, [dict(scenario='distinct exception classes with equal module/qualname', cases=n)]
 
 
+def _mutate_then_fail(sizes, table=None, *rest):
+  """Consumes its container arguments in place, then fails."""
+  sizes.sort()
+  while len(sizes) > 1:
+    sizes.pop()
+  if table is not None:
+    table.setdefault('seen', []).append(1)
+    table.pop('keep', None)
+  raise ValueError('bad sizes')
+
+
+def mutating_callable_case(_=None):
+  """A callable that edits its (container) arguments in place and then raises: the configuration
+  — also the parts shared with other Buildables — is what it was, so a second build fails the same
+  way and a healthy build afterwards is unaffected."""
+  import copy
+  from layerb import canon
+  viols = []
+  n = 0
+  def bad(what, name):
+    viols.append(dict(what=what, shape=[], sig='mutating-callable', store=name, op='', scenario='mutating'))
+  def cases():
+    shared = [4, 8, 0, 2]
+    yield 'list argument', fdl.Config(_mutate_then_fail, [4, 8, 0, 2])
+    yield 'dict argument', fdl.Config(_mutate_then_fail, [1], {'keep': 1, 'other': [2]})
+    yield 'list shared with another Buildable', fdl.Config(
+        dags.node_fn(0), fdl.Config(_mutate_then_fail, shared), fdl.Config(dags.node_fn(1), shared))
+    yield 'nested containers', fdl.Config(_mutate_then_fail, [3, 1, 2], {'keep': [1], 'k2': {'a': ()}}, (1, [2]))
+    yield 'inside a Partial argument', fdl.Config(dags.node_fn(0), [fdl.Config(_mutate_then_fail, [9, 8, 7])])
+  for name, cfg in cases():
+    n += 1
+    before = canon.canon(cfg)
+    snap = copy.deepcopy(cfg)
+    msgs = []
+    for attempt in range(2):
+      try:
+        fdl.build(cfg)
+        bad(f'{name}: build #{attempt + 1} did not fail', name)
+      except ValueError as e:
+        msgs.append(str(e).split('\n')[0])
+      except BaseException as e:   # pylint: disable=broad-except
+        bad(f'{name}: build #{attempt + 1} raised {type(e).__name__} instead of the original ValueError', name)
+      if canon.canon(cfg) != before or cfg != snap:
+        bad(f'{name}: the configuration was modified by failed build #{attempt + 1} (in-place edits of the '
+            f'callable reached the configured containers)', name)
+        break
+    if len(set(msgs)) > 1:
+      bad(f'{name}: the same failing build reports different errors: {msgs}', name)
+    try:
+      fdl.build(fdl.Config(dags.node_fn(2), [1, 2]))
+    except BaseException as e:   # pylint: disable=broad-except
+      bad(f'{name}: a healthy build afterwards raised {type(e).__name__}', name)
+  return n, n, viols, [dict(scenario='callable mutating its container arguments, then raising', cases=n)]
+
+
 def replay(case):
+  if case.get('scenario') == 'mutating':
+    r = mutating_callable_case()
+    m = [v for v in r[2] if v['store'] == case.get('store')]
+    return m[0]['what'] if m else None
   if case.get('scenario') == 'same-named':
     r = same_named_classes_case()
   elif case.get('scenario') == 'diag':
@@ -283,12 +342,14 @@ def run(tier='quick', seed=0, nproc=16):
   res.append(nested_build_case())
   res.append(diagnostic_failure_case())
   res.append(same_named_classes_case())
+  res.append(mutating_callable_case())
   return common.merge(
       res, 'layerb.prop_C05',
       rule='crash points: every Buildable node of every DAG shape (<= %d nodes, Config/list/dict) as '
            'the failing node x exception-class shapes (custom __init__, __str__ override, slots, '
            'non-subclassable, BaseException subclasses, KeyboardInterrupt) x failure while '
            'formatting the diagnostic (repr raising) x repeated failures, then follow-up builds; '
-           'nested build rejected; distinct exception classes sharing module and qualified name; every '
+           'nested build rejected; distinct exception classes sharing module and qualified name; callables '
+           'that edit their container arguments in place before failing; every '
            'case is distinct' % n,
       exhaustive=True, bound=f'DAGs <= {n} nodes')
